@@ -4,6 +4,7 @@ import (
 	"encoding/json"
 	"fmt"
 	"math/big"
+	"reflect"
 
 	"verif/internal/canon"
 	"verif/internal/fw"
@@ -140,6 +141,10 @@ func (c08) Run(c *fw.Case) {
 		failedCalls(c) // call history: failed calls before the case must leave nothing behind
 	}
 	r := c.R
+	if c.Idx%25 == 24 {
+		c08{}.tower(c)
+		return
+	}
 	var doc any
 	draft := gen.D2020
 	if c.Idx%4 == 3 {
@@ -246,4 +251,92 @@ func groupKey(kws map[string]bool) string {
 		g += "L"
 	}
 	return g
+}
+
+// tower: size stress for the representation walk. A recursive schema visits every level of a tower of 10..2000 nested
+// arrays / objects (some levels twice: items + contains, properties + patternProperties); the tower is given in the canonical
+// decoding and with 0-2 pointers in front of every level and of the leaf. Guards that only start working at some depth
+// (cycle detection after N pointers, as encoding/json has) are reached only by such instances.
+func (c08) tower(c *fw.Case) {
+	r := c.R
+	type shape struct {
+		schema string
+		object bool
+	}
+	sh := gen.Pick(r, []shape{
+		{`{"items":{"$ref":"#"},"contains":{}}`, false},
+		{`{"items":{"$ref":"#"},"contains":{"not":{"const":"never"}},"type":["array","integer"]}`, false},
+		{`{"properties":{"k":{"$ref":"#"}},"patternProperties":{"^k":{}},"type":["object","integer"]}`, true},
+		{`{"properties":{"k":{"$ref":"#"}},"additionalProperties":false,"minimum":0}`, true},
+		{`{"items":{"$ref":"#"},"maxItems":1,"minimum":0,"uniqueItems":true}`, false},
+	})
+	depth := gen.Pick(r, []int{10, 100, 500, 999, 1000, 1001, 1002, 1100, 2000})
+	leafModel := gen.Pick(r, []any{json.Number("7"), json.Number("-1"), "x", json.Number("0.5")})
+	var model any = leafModel
+	for d := 0; d < depth; d++ {
+		if sh.object {
+			model = map[string]any{"k": model}
+		} else {
+			model = []any{model}
+		}
+	}
+	rs, err, ok := compileDoc(c, sh.schema, nil)
+	if !ok || err != nil {
+		return
+	}
+	itext := gen.Text(model)
+	ref := gen.Canonical(itext)
+	want, ok := validate(c, rs, sh.schema, ref, fmt.Sprintf("canonical tower depth %d leaf %v", depth, leafModel))
+	if !ok {
+		return
+	}
+	ptr := func(v any, n int) any {
+		for ; n > 0; n-- {
+			p := reflect.New(reflect.TypeOf(v))
+			p.Elem().Set(reflect.ValueOf(v))
+			v = p.Interface()
+		}
+		return v
+	}
+	for k := 0; k < 4; k++ {
+		mode := r.IntN(4) // pointers in front of: every level k times (0..2), or a random number per level
+		per := r.IntN(3)
+		var leaf any
+		switch lm := leafModel.(type) {
+		case json.Number:
+			f, _ := lm.Float64()
+			leaf = gen.Pick(r, []any{f, lm, float32(f)})
+			if f == float64(int(f)) && r.IntN(2) == 0 {
+				leaf = int(f)
+			}
+		default:
+			leaf = lm
+		}
+		np := func() int {
+			if mode == 3 {
+				return r.IntN(3)
+			}
+			return per
+		}
+		v := ptr(leaf, np())
+		for d := 0; d < depth; d++ {
+			if sh.object {
+				v = ptr(map[string]any{"k": v}, np())
+			} else {
+				v = ptr([]any{v}, np())
+			}
+		}
+		desc := fmt.Sprintf("tower depth %d, pointer mode %d/%d, leaf %T(%v)", depth, mode, per, leaf, leaf)
+		got, ok := validate(c, rs, sh.schema, v, desc)
+		if !ok {
+			return
+		}
+		c.Eval(1)
+		c.Nontrivial(fmt.Sprintf("tower|d%d|m%d|p%d|%v", depth, mode, per, want))
+		if got != want {
+			c.Violation(fmt.Sprintf("verdict depends on the Go representation: canonical decoding valid=%v, pointer representation valid=%v", want, got),
+				map[string]any{"schema": json.RawMessage(sh.schema), "instance": desc, "reference_valid": want, "representation_valid": got})
+			return
+		}
+	}
 }
